@@ -386,7 +386,7 @@ def ve_run(ctx, A, B, kind, cases):
         if why:
             ctx.spec_fail("vertex_enumeration", "returned profile is not a Nash equilibrium: " + why,
                           {"A": A.tolist(), "B": B.tolist(), "NE": [x.tolist(), y.tolist()]})
-    check_qhull_assumption(ctx, A, B, brps)
+    check_qhull_assumption(ctx, A, B, brps, kind)
     ctx.count("ve:num-eq=%d" % min(len(NEs), 9))
     ctx.count("ve:vertices", brps[0].num_vertices + brps[1].num_vertices)
     impl = "|".join("%s:%s" % (fxs(x), fxs(y)) for x, y in NEs) or "-"
@@ -397,13 +397,19 @@ def ve_run(ctx, A, B, kind, cases):
     return NEs
 
 
-def check_qhull_assumption(ctx, A, B, brps):
+def check_qhull_assumption(ctx, A, B, brps, kind=None):
     """The hypothesis of theorem `ve_sound` (Vertex0OK / Vertex1OK), evaluated on what Qhull
     actually delivered: raw coordinates non-negative, labelled inequalities binding, zero vector
     only for the zero labelling — in Fractions, inside a relative 1e-9. Qhull is outside the
     property (its output is an input of the model), so a miss is recorded, not a violation."""
     m, n = A.shape
     tol = Fraction(1, 10 ** 9)
+    # hypothesis `hinj` of theorem `ve_complete`: no two vertices of a polytope carry the same
+    # labelling (holds on non-degenerate games; counted per kind of game)
+    for pl in range(2):
+        masks = [frozenset(int(k) for k in lab) for lab in brps[pl].labelings]
+        dup = len(masks) - len(set(masks))
+        ctx.count("ve:qhull-repeated-labellings[%s]" % ("generic" if kind in ("generic", "zerosum", "coord") else "degenerate-kinds"), dup)
     for pl, (P, own, cnt_other) in enumerate(((B, m, n), (A, n, m))):
         # P = opponent's payoff array, rows = opponent's actions, columns = own actions
         col_mins, col_maxs = P.min(axis=0), P.max(axis=0)
